@@ -1209,7 +1209,12 @@ void vh_run_case(Ctx &ctx)
     stat("cells");
     stat(std::string("cells_expect_") + expName);
     seen("method", cell.sig);
-    seen("argument_class", cell.arg.substr(0, cell.arg.find(';')).substr(cell.arg.find('=') == std::string::npos ? 0 : cell.arg.rfind('=', cell.arg.find(';')) + 1));
+    for (const char *cls : {"null", "neveradded", "ownerdead", "pastend", "unknownname", "nomodel", "modeldead"}) {
+        if (cell.arg.find(std::string("=") + cls) != std::string::npos || cell.arg.find(std::string("-") + cls) != std::string::npos) {
+            seen("argument_class", cls);
+            stat(std::string("cells_class_") + cls);
+        }
+    }
     std::string outcome = std::string(o.refused ? "refused" : "accepted") + (changed ? "+changed" : "");
     stat("outcome_" + outcome);
     if (cell.exp == N) {
